@@ -26,6 +26,15 @@ func Root() string {
 	return "/verif"
 }
 
+// Out is where evidence and replays are written: /verif, or a scratch
+// directory when a mutated tree is being checked (VERIF_OUT).
+func Out() string {
+	if r := os.Getenv("VERIF_OUT"); r != "" {
+		return r
+	}
+	return Root()
+}
+
 type finding struct {
 	Property string `json:"property"`
 	Key      string `json:"key"`
@@ -289,7 +298,7 @@ func (c *Check) Finish() {
 	}
 	var replayPaths []string
 	for i := range fresh {
-		p := explore.WriteReplay(Root(), c.ID, &fresh[i])
+		p := explore.WriteReplay(Out(), c.ID, &fresh[i])
 		replayPaths = append(replayPaths, p)
 	}
 	if len(c.samples) == 0 {
@@ -321,9 +330,9 @@ func (c *Check) Finish() {
 		"wall_s":      wall,
 		"violations":  len(fresh),
 	}
-	_ = os.MkdirAll(filepath.Join(Root(), "evidence"), 0o755)
+	_ = os.MkdirAll(filepath.Join(Out(), "evidence"), 0o755)
 	b, _ := json.MarshalIndent(ev, "", " ")
-	if err := os.WriteFile(filepath.Join(Root(), "evidence", c.ID+".json"), b, 0o644); err != nil {
+	if err := os.WriteFile(filepath.Join(Out(), "evidence", c.ID+".json"), b, 0o644); err != nil {
 		fmt.Println("cannot write evidence:", err)
 		os.Exit(2)
 	}
